@@ -11,7 +11,16 @@ Inductive case_C02 : Type :=
 | CMsg (rt : N) (ecu : char4) (ts htyp mcnt len : N) (ext : option (N * N * char4 * char4)) (payload : list (N * list N))
     (* DltMessage built field by field; to_write *)
 | CExport (specs : list (N * N * N * bool * N))
+    (* (ecu number, reception time us, timestamp dms, timestamp flag, kind): message k = MSpec::build(k) of
+       harness/src/lcgen.rs; the file in.dlt = to_write of every message; `adlt convert -o a.dlt in.dlt`,
+       `adlt convert -o b.dlt a.dlt` (reader -> lifecycle stage -> writer, Dlt/WritePipeline.v).  The harness puts a.dlt and
+       b.dlt into a state derived from the input before the commands (absent, empty, shorter, longer...): by
+       C02_export_independent_of_prior_output_content it is not an input of the model *)
 | CExportRuns (t0 : N) (runs : list (N * N * bool))
+    (* a large file described run-length: run (count, frame size, with timestamp) = count consecutive messages of
+       that many bytes each (storage header + standard header [+ timestamp] + payload); message i (numbered through the
+       file) of ECU1 is received at t0 + i s with timestamp i s, mcnt = i mod 256, payload = LE32 of i (cut to the payload
+       length) followed by 0x5a bytes.  Same commands as CExport. *)
 | CExportOver (pre : option (list (N * N * N * bool * N) * N * list (N * list N)))
               (chain : list (list (N * N * N * bool * N)))
               (pre2 : option (list (N * N * N * bool * N) * N * list (N * list N)))
@@ -21,13 +30,8 @@ Inductive case_C02 : Type :=
        CExport) exported one after the other to the SAME path: `adlt convert -o out.dlt in_k.dlt`, k = 1..n.  Then the export of
        the export, `adlt convert -o out2.dlt out.dlt`, with out2.dlt in state [pre2] before. *)
 | CExportPlugin (pre : option (list (N * N * N * bool * N) * N * list (N * list N))) (specs : list (N * N * N * bool * N)).
-    (* a large file described run-length: run (count, frame size, with timestamp) = count consecutive messages of
-       that many bytes each (storage header + standard header [+ timestamp] + payload); message i (numbered through the
-       file) of ECU1 is received at t0 + i s with timestamp i s, mcnt = i mod 256, payload = LE32 of i (cut to the payload
-       length) followed by 0x5a bytes.  Same commands as CExport. *)
-    (* (ecu number, reception time us, timestamp dms, timestamp flag, kind): message k = MSpec::build(k) of
-       harness/src/lcgen.rs; the file in.dlt = to_write of every message; `adlt convert -o a.dlt in.dlt`,
-       `adlt convert -o b.dlt a.dlt` (reader -> lifecycle stage -> writer, Dlt/WritePipeline.v) *)
+    (* library level: ExportPlugin (plugins/export.rs) without filters, its export file in state [pre] before the plugin
+       is built, every message of the file [specs] processed *)
 
 (* MSpec::build(index): kind 0 plain, 1 control request, 2 control response (non-verbose), 3 verbose control response *)
 Definition spec_msg (i : N) (s : N * N * N * bool * N) : msg :=
